@@ -199,8 +199,9 @@ Section Model.
         if nltb O (nth i thr d) x && nleb O x (nth (S i) thr d) then nth (S i) values d else r)
       (seq 0 (length values - 2)) r.
 
-  Definition array_discrete (g : T) (field values : list T) (mode : thr_mode) (mean var : option T)
-    : res (list T) :=
+  (* values / thresholds selection and the checks of array_discrete *)
+  Definition discrete_setup (field values : list T) (mode : thr_mode) (mean var : option T)
+    : res (list T * list T) :=
     let vt : res (list T * list T) :=
       match mode with
       | ThrArith => let v := sort_vals values in Ok (v, midpoints v)
@@ -217,8 +218,15 @@ Section Model.
         if negb (ascending thr) then Err E_VALUE
         else match thr with
              | [] => Err E_INDEX          (* thresholds[0] on an empty array *)
-             | _ => Ok (map (discrete_elem values thr g) field)
+             | _ => Ok (values, thr)
              end
+    end.
+
+  Definition array_discrete (g : T) (field values : list T) (mode : thr_mode) (mean var : option T)
+    : res (list T) :=
+    match discrete_setup field values mode mean var with
+    | Err c => Err c
+    | Ok (values, thr) => Ok (map (discrete_elem values thr g) field)
     end.
 
   (* ================================================================ Field.transform wrappers *)
